@@ -26,17 +26,24 @@ type c12Ref struct {
 	State   map[string]*oidc.AuthorizationState
 	Created map[string]time.Time // fixed by the first write of the entry; gone with Remove or expiry
 	Abs     time.Duration        // absolute time-out (0: none)
+	Used    map[string]time.Time // last use (writes, and reads that found what they asked for)
+	Idle    time.Duration        // idle time-out (0: none)
 }
 
 func newC12Ref() *c12Ref {
-	return &c12Ref{Tokens: map[string]*oidc.TokenResponse{}, State: map[string]*oidc.AuthorizationState{}, Created: map[string]time.Time{}}
+	return &c12Ref{Tokens: map[string]*oidc.TokenResponse{}, State: map[string]*oidc.AuthorizationState{}, Created: map[string]time.Time{}, Used: map[string]time.Time{}}
 }
 
 // expire drops the entry under id when it has outlived the absolute time-out (the harness never lands exactly on
 // the limit, where the two stores legitimately differ).
 func (r *c12Ref) expire(id string, now time.Time) {
-	if c, ok := r.Created[id]; ok && r.Abs > 0 && c.Add(r.Abs).Before(now) {
+	c, ok := r.Created[id]
+	if !ok {
+		return
+	}
+	if (r.Abs > 0 && c.Add(r.Abs).Before(now)) || (r.Idle > 0 && r.Used[id].Add(r.Idle).Before(now)) {
 		delete(r.Created, id)
+		delete(r.Used, id)
 		delete(r.State, id)
 		delete(r.Tokens, id)
 	}
@@ -46,6 +53,7 @@ func (r *c12Ref) touch(id string, now time.Time) {
 	if _, ok := r.Created[id]; !ok {
 		r.Created[id] = now
 	}
+	r.Used[id] = now
 }
 
 
@@ -106,6 +114,9 @@ func (r *c12Ref) apply(op, id, val string, now time.Time) string {
 		r.touch(id, now)
 		r.Tokens[id] = c12TokenValue(val)
 	case "GetTokens":
+		if r.Tokens[id] != nil {
+			r.Used[id] = now
+		}
 		return fmtTok(r.Tokens[id])
 	case "SetState":
 		r.touch(id, now)
@@ -201,16 +212,16 @@ func (s *c12Sys) Close() {
 	world.Minis.Put(s.mini)
 }
 
-func newC12Sys(abs time.Duration) *c12Sys {
+func newC12Sys(abs, idle time.Duration) *c12Sys {
 	s := &c12Sys{now: world.T0, ref: newC12Ref()}
-	s.ref.Abs = abs
+	s.ref.Abs, s.ref.Idle = abs, idle
 	s.clock = oidc.Clock{NowFn: func() time.Time { return s.now }}
-	s.mem = oidc.NewMemoryStore(&s.clock, abs, 0)
+	s.mem = oidc.NewMemoryStore(&s.clock, abs, idle)
 	s.mini = world.Minis.Get()
 	s.mini.SetTime(s.now)
 	for i := range s.rc {
 		s.rc[i] = redis.NewClient(&redis.Options{Addr: s.mini.Addr(), MaxRetries: -1})
-		r, err := oidc.NewRedisStore(&s.clock, s.rc[i], abs, 0)
+		r, err := oidc.NewRedisStore(&s.clock, s.rc[i], abs, idle)
 		if err != nil {
 			panic(err)
 		}
@@ -245,6 +256,7 @@ func (s *c12Sys) redisDump() string {
 type c12Replay struct {
 	History []seqx.Event `json:"history"`
 	Abs     int          `json:"abs,omitempty"`
+	Idle    int          `json:"idle,omitempty"`
 }
 
 // createdCheck compares the creation time both stores keep for every entry of the reference with the reference's
@@ -267,7 +279,11 @@ func (s *c12Sys) createdCheck() string {
 	return ""
 }
 
-func c12Model(run *ev.Run, absSec int) seqx.Model {
+func c12Model(run *ev.Run, absSec int) seqx.Model { return c12ModelI(run, absSec, 0) }
+
+// c12ModelI: idleSec > 0 restricts the alphabet to operations whose effect on "last used" is beyond doubt (token
+// writes, token reads) - whether a read that finds the session but not the part asked for counts as use is left open.
+func c12ModelI(run *ev.Run, absSec, idleSec int) seqx.Model {
 	ids := []string{"a", "b"}
 	// (only values the handler can write: the ID token is always a JWT that parsed)
 	shapes := []string{"full", "no-access", "no-refresh", "zero-expiry", "stale-claims"}
@@ -275,12 +291,16 @@ func c12Model(run *ev.Run, absSec int) seqx.Model {
 		ids, shapes = []string{"a"}, []string{"full", "no-access"}
 	}
 	abs := time.Duration(absSec) * time.Second
+	idle := time.Duration(idleSec) * time.Second
 	var alphabet []seqx.Event
 	for _, id := range ids {
 		for _, v := range shapes {
 			alphabet = append(alphabet, seqx.Event{Kind: "SetTokens", Who: id, Arg: v})
 		}
 		alphabet = append(alphabet, seqx.Event{Kind: "GetTokens", Who: id})
+		if idleSec > 0 {
+			continue
+		}
 		for _, w := range []string{"w1", "w2"} {
 			alphabet = append(alphabet, seqx.Event{Kind: "SetState", Who: id, Arg: w})
 		}
@@ -297,11 +317,14 @@ func c12Model(run *ev.Run, absSec int) seqx.Model {
 	if absSec > 0 {
 		// never exactly on the limit (absSec is odd, advances are even)
 		evs = append(evs, seqx.Event{Kind: "Advance", Adv: 2}, seqx.Event{Kind: "Advance", Adv: absSec + 1})
+		if idleSec > 0 {
+			evs = append(evs, seqx.Event{Kind: "Advance", Adv: 4})
+		}
 	} else {
 		evs = append(evs, seqx.Event{Kind: "Advance", Adv: 1})
 	}
 	return seqx.Model{
-		New: func() seqx.Sys { return newC12Sys(abs) },
+		New: func() seqx.Sys { return newC12Sys(abs, idle) },
 		Apply: func(sy seqx.Sys, e seqx.Event, hist []seqx.Event, live bool) {
 			s := sy.(*c12Sys)
 			if e.Kind == "Advance" {
@@ -316,7 +339,7 @@ func c12Model(run *ev.Run, absSec int) seqx.Model {
 			if !live {
 				return
 			}
-			full := c12Replay{History: append(append([]seqx.Event{}, hist...), e), Abs: absSec}
+			full := c12Replay{History: append(append([]seqx.Event{}, hist...), e), Abs: absSec, Idle: idleSec}
 			isRead := e.Kind == "GetTokens" || e.Kind == "GetState"
 			run.Class(fmt.Sprintf("%s|found=%v", e.Kind, want != "nil" && want != ""))
 			if em != nil && !(e.Kind == "Clear") {
@@ -352,7 +375,12 @@ func c12Model(run *ev.Run, absSec int) seqx.Model {
 				snap := oidc.VerifMemorySnapshot(s.mem)
 				for _, id := range ids {
 					if se, ok := snap[id]; ok {
-						ages += fmt.Sprintf("|m:%s:%v", id, s.now.Sub(se.Added))
+						ages += fmt.Sprintf("|m:%s:%v:%v", id, s.now.Sub(se.Added), s.now.Sub(se.Accessed))
+					}
+					// the reference's own clock values are state too (two histories may leave the stores alike and the
+					// reference different - exactly when a store has lost track of a use)
+					if c, ok := s.ref.Created[id]; ok {
+						ages += fmt.Sprintf("|ref:%s:%v:%v", id, s.now.Sub(c), s.now.Sub(s.ref.Used[id]))
 					}
 					if v := s.mini.HGet(id, "time_added"); v != "" {
 						if t, err := time.Parse(time.RFC3339Nano, v); err == nil {
@@ -518,18 +546,20 @@ func c12Run(run *ev.Run) {
 		"not compared: error returned by Clear on an absent id; an empty session object kept by the memory store (not observable through the interface)",
 		"'longer ones randomly' is not claimed (sampling)",
 	}
-	m := c12Model(run, 0)
-	m.MaxDepth = 7
-	if run.Tier == "thorough" {
-		m.MaxDepth = 10
-	}
-	st := seqx.Explore(run, m)
-	if !st.Complete {
-		run.Cap(fmt.Sprintf("sequential search stopped at depth %d", st.DepthDone))
-	}
-	run.Extra["sequential_levels"] = st.LevelSizes
-	run.States, run.Transitions, run.Traces = st.States, st.Transitions, st.Histories
+	// (the small search first: a deadline cuts the big one, not this)
 	// with an absolute time-out of 5 s: expiry, re-creation under the same id, creation time across replicas
+	// ... and with both time-outs (absolute 11 s, idle 5 s, steps of 2 s): a session that is used often enough lives
+	// until the absolute limit and not a step longer or shorter, on every replica
+	mi := c12ModelI(run, 11, 5)
+	mi.MaxDepth = 9
+	if run.Tier == "thorough" {
+		mi.MaxDepth = 12
+	}
+	si := seqx.Explore(run, mi)
+	if !si.Complete {
+		run.Cap(fmt.Sprintf("sequential search with both time-outs stopped at depth %d", si.DepthDone))
+	}
+	run.Extra["sequential_levels_abs11_idle5"] = si.LevelSizes
 	ma := c12Model(run, 5)
 	ma.MaxDepth = 9
 	if run.Tier == "thorough" {
@@ -540,9 +570,20 @@ func c12Run(run *ev.Run) {
 		run.Cap(fmt.Sprintf("sequential search with absolute time-out stopped at depth %d", sa.DepthDone))
 	}
 	run.Extra["sequential_levels_abs5"] = sa.LevelSizes
-	run.States += sa.States
-	run.Transitions += sa.Transitions
-	run.Traces += sa.Histories
+	run.States, run.Transitions, run.Traces = sa.States+si.States, sa.Transitions+si.Transitions, sa.Histories+si.Histories
+	m := c12Model(run, 0)
+	m.MaxDepth = 7
+	if run.Tier == "thorough" {
+		m.MaxDepth = 10
+	}
+	st := seqx.Explore(run, m)
+	if !st.Complete {
+		run.Cap(fmt.Sprintf("sequential search stopped at depth %d", st.DepthDone))
+	}
+	run.Extra["sequential_levels"] = st.LevelSizes
+	run.States += st.States
+	run.Transitions += st.Transitions
+	run.Traces += st.Histories
 	for _, sc := range c12ConcScenarios(run.Tier) {
 		cs := schedx.Explore(run, "C12", sc)
 		run.Traces += cs.Schedules
@@ -581,7 +622,7 @@ func c12ReplayFn(path string) int {
 		return 2
 	}
 	run := ev.NewRun("C12", "replay", "/nonexistent")
-	s := seqx.Replay(c12Model(run, sr.Abs), sr.History)
+	s := seqx.Replay(c12ModelI(run, sr.Abs, sr.Idle), sr.History)
 	s.Close()
 	return replayVerdict("C12", run.Violations() > 0, "")
 }
